@@ -405,6 +405,8 @@ def candidates(case):
         c = copy.deepcopy(case)
         del c['faults'][i]
         yield c
+    for c in shrink.drop_cycle_variants(case):
+        yield c
     if case.get('assert_wire'):
         c = copy.deepcopy(case)
         c['assert_wire'] = None
